@@ -272,7 +272,8 @@ CHECKS = {
     "C14": dict(
         engine="symnum+z3",
         technique="bounded call / access histories executed symbolically on the real classes (results read repeatedly and in several orders, "
-                  "write_output repeated and re-ordered, two calculators interleaved, fill applied twice); z3 equality of everything observed",
+                  "write_output repeated and re-ordered, two calculators interleaved, fill applied twice); z3 equality of everything observed; set "
+                  "iteration order (hash seed) as finite-domain symbolic permutations explored by the forking executor",
         text="Partial: the clauses of the statement that are about values the code computes. For all symbolic inputs and the listed "
              "histories (2-3 reads per quantity, 3 access orders, 3 write_output calls, 2 calculators in one process, fill applied twice) "
              "every array observed later equals the one observed first: every property of the phonon contribution objects (found by introspection, cached "
@@ -281,8 +282,11 @@ CHECKS = {
              "calculator's results after a second one was built, "
              "and a symmetry-filled table filled again (tables satisfying the relations; a table accepted with a misfit eps in [1/1000, 1/10] "
              "is a known finding: the fill is not idempotent there; so is a table whose symmetry-allowed component vanishes identically: the fill refuses "
-             "its own output).",
-        note="NOT covered and not coverable by this technique: the interpreter's hash seed, unrelated entries in the working directory and "
+             "its own output). Hash seed: the builtin set of config.py / calculator.py is replaced by a set whose iteration order is a "
+             "symbolic permutation (Lehmer code of finite-domain integers); on every feasible order update_config returns 'user over "
+             "defaults' (two nesting levels, up to 7 keys) and _calculate_compliances inverts the symmetric matrix of the components "
+             "(9 / 13 / 15 components).",
+        note="NOT covered and not coverable by this technique: hash-seed effects other than set iteration order, unrelated entries in the working directory and "
              "byte-identical output files are properties of the process environment, not values the code computes with; only re-running the "
              "program varies them (differential re-execution). Histories longer than the listed ones are outside. Related history obligations "
              "live in C05 (configuration leak), C08/C09 (fill call order, relations file rewritten, directory named like the system), C16, C17.",
